@@ -314,8 +314,10 @@ func (h *harness) doOutside(s int, st Step) (string, *verr) {
 			}
 		}
 		if len(cands) == 0 {
+			// nothing to drop yet: let a connection reach the server instead
 			h.mu.Unlock()
-			return st.String() + " (skipped: no transport reached the server)", nil
+			h.label("outside:xdrop-became-connect-serve")
+			return h.doOutside(s, Step{K: "xcon", I: st.I, M: netServe})
 		}
 		inv := cands[mod(st.I, len(cands))]
 		sc := inv.srvConns
